@@ -60,6 +60,14 @@ const (
 	kSpecialDir  // a directory whose name means something to the go tool or to tools (vendor, internal, testdata, .hidden, _x, ...) holding generated and user files
 	kSpecialGen  // such a directory holding generated files only
 	kFileAsDir   // a regular FILE whose name looks like a directory / package name
+	// decorations of owned names: an owned name plus a prefix / suffix as editors, patch tools and "atomic write" schemes
+	// produce them (x.gr.go.tmp, x.gr.go~, .x.gr.go.swp, #x.gr.go#, x.gr.go.orig, <manifest>.tmp, <manifest>~, .<manifest>.swp).
+	// None is owned.  The decorated name is the generated-file name of a NEIGHBOUR position, so that the owned file and its
+	// decoration can sit side by side.  Three kinds x three positions = nine different decorations in every enumeration.
+	kDecorA
+	kDecorB
+	kDecorC
+	kLast = kDecorC
 )
 
 var specialDirs = []string{"vendor", "internal", "testdata", ".hidden", "_skip", "node_modules", ".git", "gr.go"}
@@ -98,6 +106,15 @@ func leafNode(m *module, kind, pos int, salt string) *Node {
 		return &Node{Name: specialDirs[pos%len(specialDirs)], Dir: true, Children: []*Node{{Name: "keep.go", Content: "package x // user " + salt}, {Name: "z" + m.suffix, Content: "// generated"}}}
 	case kSpecialGen:
 		return &Node{Name: specialDirs[(pos+3)%len(specialDirs)], Dir: true, Children: []*Node{{Name: "sub", Dir: true, Children: []*Node{{Name: "z" + m.suffix, Content: "// generated"}}}, {Name: "z" + m.suffix, Content: "// generated"}}}
+	case kDecorA, kDecorB, kDecorC:
+		q := (pos + 2) % 3
+		g := fmt.Sprintf("%c%dx%s", 'a'+q, q, m.suffix) // the kGen name of position q
+		names := map[int][]string{
+			kDecorA: {g + ".tmp", g + "~", "." + g + ".swp"},
+			kDecorB: {"#" + g + "#", m.manifest + ".tmp", g + ".orig"},
+			kDecorC: {"." + m.manifest + ".swp", g + ".bak", m.manifest + "~"},
+		}[kind]
+		return &Node{Name: names[pos%3], Content: "user data " + salt}
 	case kFileAsDir:
 		alts := []string{"vendor", p + "sub", "pkg", "internal", "com"}
 		return &Node{Name: alts[pos%len(alts)], Content: "a regular file " + salt}
@@ -163,7 +180,7 @@ func randomTree(m *module, r *hx.Rand, d, w int) []*Node {
 	for pos := 0; pos < n; pos++ {
 		k := r.Intn(10)
 		if r.Chance(18) {
-			out = append(out, leafNode(m, kGenDirFull+r.Intn(kFileAsDir-kGenDirFull+1), pos, fmt.Sprint(r.Intn(3))))
+			out = append(out, leafNode(m, kGenDirFull+r.Intn(kLast-kGenDirFull+1), pos, fmt.Sprint(r.Intn(3))))
 			continue
 		}
 		if k >= kNested {
@@ -456,7 +473,7 @@ func main() {
 		"symbolic link to an outside directory holding generated files, nested dir}: quick = exhaustive depth 1 width <= 3 over all kinds (as a named target and as \".\"), exhaustive depth 2 width <= 2 over 6 kinds, " +
 		"depth 3 width <= 2 over generated files only, 400 seeded random trees of depth <= 3 width <= 3 per module, and a missing target; thorough = depth 2 over all kinds, depth 3 over {generated,user,empty dir}, 20000 random trees; both module generations. " +
 		"names and kinds at odds, both tiers: directories named like generated files (x.gr.go/ with user files, with generated files only, empty; y.gr.json/), directories named vendor, internal, testdata, .hidden, _skip, node_modules, .git, gr.go " +
-		"(holding generated and user files, at depth 1 and 2), regular files named like directories - exhaustive depth 1 width <= 2 with the basic kinds, depth 2 width <= 2 over {generated, user, x.gr.go/, special dir} (thorough: depth 1 width <= 3 over all kinds, depth 2 width <= 2 over {generated, user, manifest, x.gr.go/, y.gr.json/, special dir, file-as-dir}), a fixed sweep of 6 trees per name, and 18% of the random entries. " +
+		"(holding generated and user files, at depth 1 and 2), regular files named like directories, and DECORATIONS of owned names (x.gr.go.tmp, x.gr.go~, .x.gr.go.swp, #x.gr.go#, x.gr.go.orig, x.gr.go.bak, <manifest>.tmp, <manifest>~, .<manifest>.swp: none is owned; also exhaustive depth 1 width <= 3 over {generated, manifest, decorations}) - exhaustive depth 1 width <= 2 with the basic kinds, depth 2 width <= 2 over {generated, user, x.gr.go/, special dir} (thorough: depth 1 width <= 3 over all kinds, depth 2 width <= 2 over {generated, user, manifest, x.gr.go/, y.gr.json/, special dir, file-as-dir}), a fixed sweep of 6 trees per name, and 18% of the random entries. " +
 		"non-trivial = the tree holds at least one foreign file AND at least one owned file; distinct by (module, target kind, tree). " +
 		"GENERATOR-LEVEL HISTORIES (oracle only, no model evaluated): the real cmd.GenerateCode of both modules in child processes on a project directory with foreign files (go.mod, main.go, docs/, hand-written .go and data files beside generated code, a symbolic link, owned-looking files OUTSIDE the output directory; output directory = a sub directory or the project root, given by path or as \".\"): " +
 		"(1) generate; regenerate; regenerate a changed schema set - for namespaces with the segments vendor, internal, testdata, gen.gr, _hidden, cmd, main, x.gr, node_modules, ... and v2 package roots .hidden/vendor (generateWithPackageRoot); " +
@@ -524,9 +541,6 @@ func main() {
 	fewKinds := []int{kGen, kUser, kEmptyDir}
 	r := hx.NewRand(cfg.Seed)
 	for i := range modules {
-		if os.Getenv("C20_ONLY") == "histories" { // development aid: skip the tree part
-			break
-		}
 		m := &modules[i]
 		runCase(m, scratch, false, false, nil, rep, sh)
 		both := func(cs []*Node) {
@@ -538,13 +552,14 @@ func main() {
 		}
 		enumerate(m, allKinds, 1, 3, dotToo)
 		namedDirSweep(m, dotToo)
-		oddKinds := []int{kGenDirFull, kGenDirGen, kGenDirEmpty, kJsonDir, kSpecialDir, kSpecialGen, kFileAsDir}
+		oddKinds := []int{kGenDirFull, kGenDirGen, kGenDirEmpty, kJsonDir, kSpecialDir, kSpecialGen, kFileAsDir, kDecorA, kDecorB, kDecorC}
 		if cfg.Thorough() {
 			enumerate(m, append(append([]int{}, allKinds...), oddKinds...), 1, 3, dotToo)
 			enumerate(m, []int{kGen, kUser, kManifest, kGenDirFull, kJsonDir, kSpecialDir, kFileAsDir}, 2, 2, both)
 		} else {
 			enumerate(m, append([]int{kGen, kUser, kManifest, kEmptyDir}, oddKinds...), 1, 2, dotToo)
 			enumerate(m, []int{kGen, kUser, kGenDirFull, kSpecialDir}, 2, 2, both)
+			enumerate(m, []int{kGen, kManifest, kDecorA, kDecorB, kDecorC}, 1, 3, dotToo)
 		}
 		if cfg.Thorough() {
 			enumerate(m, allKinds, 2, 2, both)
